@@ -2,10 +2,14 @@ package impl
 
 import (
 	"fmt"
+	"reflect"
 	"strings"
 	"sync"
 
+	"github.com/trustbloc/sidetree-go/pkg/api/operation"
 	"github.com/trustbloc/sidetree-go/pkg/api/protocol"
+	"github.com/trustbloc/sidetree-go/pkg/versions/1_0/doctransformer/didtransformer"
+	"github.com/trustbloc/sidetree-go/pkg/versions/1_0/doctransformer/doctransformer"
 	"github.com/trustbloc/sidetree-go/pkg/vdr/sidetreelongform/dochandler/protocol/nsprovider"
 	"github.com/trustbloc/sidetree-go/pkg/vdr/sidetreelongform/dochandler/protocol/verprovider"
 	"github.com/trustbloc/sidetree-go/pkg/vdr/sidetreelongform/dochandler/protocolversion/clientregistry"
@@ -71,6 +75,9 @@ func stressKind(c *proto.Case) interface{} {
 	close(start)
 	wg.Wait()
 	out := M{"class": "ok", "mismatch": mismatch, "first": first}
+	for k, v := range derivedModels(cases, g) {
+		out[k] = v
+	}
 
 	// namespace provider: concurrent Add / ForNamespace
 	nsp := nsprovider.New()
@@ -144,4 +151,154 @@ func stressKind(c *proto.Case) interface{} {
 	out["versions_not_registered_exactly_once"] = double
 	out["registry_lookup_wrong"] = lookupBad
 	return out
+}
+
+// derivedModels: every goroutine applies an operation of its own to ONE state and transforms the
+// model it gets back, with both transformers and the operation lists included. Applier.Apply hands
+// parts of the state on to its results (the operation lists; the document when an update does not
+// take), so distinct results share memory the caller cannot see: the answers must be those of the
+// same calls made one after the other on states of their own, and the state must come out as it
+// went in.
+func derivedModels(cases []*proto.Case, g int) M {
+	type pair struct {
+		c      *proto.Case
+		i      int
+		shares bool
+	}
+	apply := func(s *stack, op *operation.AnchoredOperation, rm *protocol.ResolutionModel) (res *protocol.ResolutionModel, err error) {
+		defer func() {
+			if r := recover(); r != nil {
+				res, err = nil, fmt.Errorf("panic: %v", r)
+			}
+		}()
+		return s.applier.Apply(op, rm)
+	}
+	fold := func(c *proto.Case, n int, visit func(i int, before, after *protocol.ResolutionModel)) *protocol.ResolutionModel {
+		s := stackFor(c)
+		rm := rmFromJSON(c.Body["init"])
+		for i, o := range proto.Arr(c.Body["ops"]) {
+			if i >= n {
+				break
+			}
+			res, err := apply(s, anchored(proto.Obj(o)), rm)
+			if err != nil {
+				continue
+			}
+			if visit != nil {
+				visit(i, rm, res)
+			}
+			rm = res
+		}
+		return rm
+	}
+	var sharing, others []pair
+	for _, c := range cases {
+		if c.Kind != "apply" {
+			continue
+		}
+		fold(c, 1<<30, func(i int, before, after *protocol.ResolutionModel) {
+			if before.Doc != nil && after.Doc != nil && reflect.ValueOf(before.Doc).Pointer() == reflect.ValueOf(after.Doc).Pointer() {
+				sharing = append(sharing, pair{c, i, true})
+			} else {
+				others = append(others, pair{c, i, false})
+			}
+		})
+	}
+	if len(sharing) > 8 {
+		sharing = sharing[:8]
+	}
+	if len(others) > 8 {
+		others = others[:8]
+	}
+	pairs := append(sharing, others...)
+	mkOps := func(n int, tag string) []*operation.AnchoredOperation {
+		var l []*operation.AnchoredOperation
+		for k := 0; k < n; k++ {
+			// store order: newest first, so sorting has work to do
+			l = append(l, &operation.AnchoredOperation{Type: operation.TypeUpdate, UniqueSuffix: "sfx", OperationRequest: []byte("{}"),
+				TransactionTime: uint64(1000 - k), TransactionNumber: uint64(k % 3), CanonicalReference: fmt.Sprintf("%s%d", tag, k)})
+		}
+		return l
+	}
+	stateAt := func(p pair) *protocol.ResolutionModel {
+		rm := fold(p.c, p.i, nil)
+		rm.PublishedOperations = mkOps(40, "pub")
+		rm.UnpublishedOperations = mkOps(12, "unpub")
+		return rm
+	}
+	refs := func(l []*operation.AnchoredOperation) []string {
+		var out []string
+		for _, o := range l {
+			out = append(out, o.CanonicalReference)
+		}
+		return out
+	}
+	snapshot := func(rm *protocol.ResolutionModel) string {
+		return string(proto.Marshal(jsonRound(M{"state": rmJSON(rm), "pub": refs(rm.PublishedOperations), "unpub": refs(rm.UnpublishedOperations)})))
+	}
+	didTr := didtransformer.New(didtransformer.WithIncludePublishedOperations(true), didtransformer.WithIncludeUnpublishedOperations(true))
+	docTr := doctransformer.New(doctransformer.WithIncludePublishedOperations(true), doctransformer.WithIncludeUnpublishedOperations(true))
+	transform := func(f func() (interface{}, error)) (out interface{}) {
+		defer func() {
+			if r := recover(); r != nil {
+				out = fmt.Sprintf("panic: %v", r)
+			}
+		}()
+		res, err := f()
+		if err != nil {
+			return "err: " + err.Error()
+		}
+		return resultJSON(res)
+	}
+	run := func(p pair, st *protocol.ResolutionModel, t int) string {
+		op := anchored(proto.Obj(proto.Arr(p.c.Body["ops"])[p.i]))
+		op.CanonicalReference = fmt.Sprintf("op-%d", t)
+		res, err := apply(stackFor(p.c), op, st)
+		if err != nil {
+			return "err: " + err.Error()
+		}
+		info := protocol.TransformationInfo{"id": fmt.Sprintf("did:sidetree:%s:%d", op.UniqueSuffix, t), "published": true}
+		return string(proto.Marshal(M{
+			"did": transform(func() (interface{}, error) { return didTr.TransformDocument(res, info) }),
+			"doc": transform(func() (interface{}, error) { return docTr.TransformDocument(res, info) }),
+		}))
+	}
+	mismatch, changed := 0, 0
+	var first interface{}
+	var mu sync.Mutex
+	for _, p := range pairs {
+		want := make([]string, g)
+		for t := 0; t < g; t++ {
+			want[t] = run(p, stateAt(p), t)
+		}
+		st := stateAt(p)
+		before := snapshot(st)
+		var wg sync.WaitGroup
+		start := make(chan struct{})
+		for t := 0; t < g; t++ {
+			wg.Add(1)
+			go func(t int) {
+				defer wg.Done()
+				<-start
+				if got := run(p, st, t); got != want[t] {
+					mu.Lock()
+					mismatch++
+					if first == nil {
+						first = M{"line": p.c.Raw, "step": p.i, "goroutine": t, "own_state": want[t], "shared_state": got}
+					}
+					mu.Unlock()
+				}
+			}(t)
+		}
+		close(start)
+		wg.Wait()
+		if after := snapshot(st); after != before {
+			changed++
+			if first == nil {
+				first = M{"line": p.c.Raw, "step": p.i, "state_before": before, "state_after": after}
+			}
+		}
+	}
+	return M{"derived_mismatch": mismatch, "derived_state_changed": changed, "derived_first": first,
+		"detail": fmt.Sprintf("derived models: %d (state, operation) pairs, %d of them sharing the document", len(pairs), len(sharing))}
 }
